@@ -203,9 +203,12 @@ theorem resolveField_ok (hasInit : Bool) (gf : GoField) (ft : List (List Char)) 
                 | some p =>
                   obtain ⟨t, r'⟩ := p
                   rw [hp] at hty
-                  simp only [Option.map_some, Option.some.injEq] at hty
-                  subst hty
-                  exact (parseType_ok _ _ _ _ _ _ hp).1
+                  simp only at hty
+                  split at hty
+                  · simp only [Option.some.injEq] at hty
+                    subst hty
+                    exact (parseType_ok _ _ _ _ _ _ hp).1
+                  · cases hty
               simp only [Field.ok, mkField, htyok, Bool.true_and, Bool.and_eq_true, Bool.or_eq_true,
                 Bool.not_eq_true', beq_iff_eq, decide_eq_true_eq]
               refine ⟨⟨?_, ?_⟩, decide_eq_true (parseU16_lt hid)⟩
